@@ -459,6 +459,54 @@ func (g *gen) program() string {
 		default:
 			return "$count($keys(" + g.pick("$[0]", "a[0]") + ")) = $count($spread(" + g.pick("$[0]", "a[0]") + "))"
 		}
+	case "str":
+		pool := []rune("ab, é€😀\t-z")
+		rs := func(max int) string {
+			n := g.r.Intn(max + 1)
+			out := make([]rune, n)
+			for i := range out {
+				out[i] = pool[g.r.Intn(len(pool))]
+			}
+			return string(out)
+		}
+		q := func(s string) string { b, _ := json.Marshal(s); return string(b) }
+		num := func() string { return g.pick("0", "1", "2", "3", "5", "8", "-1", "-2", "-3", "-8", "1.5", "-2.5", "40") }
+		s := q(rs(g.pick2(6, 12, 40).(int)))
+		c := q(rs(2))
+		switch g.r.Intn(16) {
+		case 0:
+			return "$length(" + s + ")"
+		case 1:
+			return "$substring(" + s + ", " + num() + g.pick("", ", "+num()) + ")"
+		case 2:
+			return "$pad(" + s + ", " + num() + g.pick("", ", "+q(rs(3))) + ")"
+		case 3:
+			return g.pick("$substringBefore", "$substringAfter", "$contains") + "(" + s + ", " + c + ")"
+		case 4:
+			return "$split(" + s + ", " + c + g.pick("", ", "+num()) + ")"
+		case 5:
+			return "$replace(" + s + ", " + c + ", " + q(rs(2)) + g.pick("", ", "+num()) + ")"
+		case 6:
+			return g.pick("$trim", "$uppercase", "$lowercase") + "(" + s + ")"
+		case 7:
+			return "$join($split(" + s + ", " + c + "), " + c + ") = " + s
+		case 8:
+			return "$length($pad(" + s + ", " + g.pick("0", "3", "-7", "12", "-1") + "))"
+		case 9:
+			return "$contains(" + s + ", " + c + ") ? $substringBefore(" + s + ", " + c + ") & " + c + " & $substringAfter(" + s + ", " + c + ") = " + s + " : true"
+		case 10:
+			return "$base64decode($base64encode(" + s + ")) = " + s
+		case 11:
+			return "$decodeUrlComponent($encodeUrlComponent(" + s + ")) = " + s
+		case 12:
+			return "$join(" + g.pick("["+s+", "+c+"]", "["+s+"]", s, "[]") + g.pick("", ", "+c) + ")"
+		case 13:
+			return s + ".$substring(" + num() + ")"
+		case 14:
+			return "$base64encode(" + s + ")"
+		default:
+			return "$encodeUrlComponent(" + s + ")"
+		}
 	case "transform":
 		pat := g.pick("$", "a", "a.b", "*", "**", "a[b = 1]", "$$", "$v", "$v.a", "$w", "a[0]", "**[k = 1]", "c", "$$.a")
 		upd := g.pick(`{"z": 1}`, `{"a": 2}`, `{"b": {"q": 1}}`, `{"n": $count($keys($))}`, `{"k": k + 1}`, `{"z": $$.b}`, "5", `"x"`, "nothing", `{}`, `[{"z": 1}]`)
